@@ -435,7 +435,15 @@ pub fn with_rejected_noise(rng: &mut Rng, front: Front, ops: &[Op]) -> Vec<Op> {
         }
         if let Some((k, v)) = &last {
             if rng.chance(1, 3) {
-                match rng.below(4) {
+                match rng.below(6) {
+                    // a BULK call that ends early: its first item is a key
+                    // below the last one (refused for every front end)
+                    4 | 5 if !k.is_empty() => {
+                        let cut = rng.usize_below(k.len());
+                        let items = vec![(k[..cut].to_vec(), 7), (k.clone(), *v)];
+                        out.push(if rng.chance(1, 2) { Op::ExtIter(items) } else { Op::ExtStream(items, Via::Vec) });
+                    }
+                    4 | 5 => {}
                     // duplicate of the last key (rejected by map/raw insert;
                     // a no-op for a set)
                     0 => out.push(Op::Ins(k.clone(), v.saturating_sub(1 + rng.below(5)))),
